@@ -40,7 +40,8 @@ LEVEL_TEXT = (
     "that flush, and (model-free) the registers the real assembler introduces are disjoint from the registers live at "
     "that flush; histories with registers live across flushes, and histories whose loop_until / if conditions are "
     "RegFutures (new_register register, loop counters, M registers), run on the real Executor against direct "
-    "evaluation. "
+    "evaluation; measurement histories (inplace x outcome target, >= 17 array-stored measurements between flushes) "
+    "against the M pool. "
     "The model is of /repo with the F17 fix commits.")
 LEVEL_NOTE = (
     "Trusted: Lean kernel; harness/sdk.py (interpreter of the host AST through the SDK API, canonicalisation); the "
@@ -111,6 +112,85 @@ def _leak_check(H, prog, res, what):
                     break
             return out
         before = after
+    return None
+
+
+def _meas_history(H, rng, n_ops, flush_every, kinds, script=None):
+    from netqasm.sdk.qubit import Qubit as _Qubit
+    r = H.RealRun(execute=False)
+    mm = r.mm
+
+    def used():
+        return sorted(x.index for x, u in mm._used_meas_registers.items() if u)
+    arr = r.conn.new_array(4)
+    q = None
+    log = []
+    held = 0
+    act0 = sorted(x.index for x in mm._active_registers)
+    for i in range(n_ops if script is None else len(script)):
+        kind = tuple(script[i]) if script is not None else rng.choice(kinds)
+        if script is None and kind[1] == "reg" and held >= 15:
+            kind = (kind[0], "new")
+        log.append(list(kind))
+        before = used()
+        try:
+            if q is None:
+                q = _Qubit(r.conn)
+            if rng.random() < 0.5:
+                q.H()
+            inplace, tgt = kind
+            if tgt == "new":
+                q.measure(inplace=inplace)
+            elif tgt == "fut":
+                q.measure(future=arr.get_future_index(rng.randrange(4)), inplace=inplace)
+            else:
+                q.measure(inplace=inplace, store_array=False)
+                held += 1
+            if not inplace:
+                q = None
+        except Exception as e:
+            return {"what": "the real SDK raised %s at measurement %d of a history of completed measurements"
+                            % (H.err_kind(e), i), "error": str(e)[:120], "step": i, "history": log,
+                    "m_registers_in_use": before, "flush_every": flush_every}
+        after = used()
+        want = before if kind[1] != "reg" else None
+        if (want is not None and after != want) or (want is None and len(after) != len(before) + 1):
+            out = {"what": "a completed measurement (inplace=%s, outcome to %s) left the M pool changed"
+                           % (kind[0], {"new": "a new array entry", "fut": "a given Future",
+                                        "reg": "a register"}[kind[1]]),
+                   "step": i, "m_before": before, "m_after": after, "history": list(log),
+                   "flush_every": flush_every}
+            # the same measurement repeated without a flush: where compiling raises
+            for k in range(1, 40):
+                try:
+                    if q is None:
+                        q = _Qubit(r.conn)
+                    if kind[1] == "fut":
+                        q.measure(future=arr.get_future_index(0), inplace=kind[0])
+                    else:
+                        q.measure(inplace=kind[0], store_array=kind[1] != "reg")
+                    if not kind[0]:
+                        q = None
+                except Exception as e:
+                    out["raises_after_repetitions"] = k
+                    out["error"] = H.err_kind(e) + ": " + str(e)[:100]
+                    break
+            return out
+        if sorted(x.index for x in mm._active_registers) != act0:
+            return {"what": "a measurement changed the active R registers", "step": i, "history": log}
+        if (i + 1) % flush_every == 0:
+            try:
+                if q is not None:
+                    q.measure()
+                    q = None
+                r.flush()
+            except Exception as e:
+                return {"what": "the real SDK raised %s at the flush after measurement %d" % (H.err_kind(e), i),
+                        "error": str(e)[:120], "step": i, "history": log}
+            held = 0
+            if used():
+                return {"what": "measurement (M) registers are still taken after a flush", "step": i,
+                        "meas_registers_in_use": used(), "history": log}
     return None
 
 
@@ -375,6 +455,23 @@ def run(ctx):
         if det:
             res.failures.append({"what": "add history: " + det[0]["what"], "kf": None,
                                  "input": {"program": prog, "outcomes": [0] * 64, "detail": det[:3]}})
+    # -- stream J: the M pool under every kind of measurement — measure(inplace True/False x outcome to a new array
+    #    entry / a given Future / a register), long histories with >= 17 array-stored measurements between two
+    #    flushes, driven through the real SDK API directly (in-place measurement is not in the host AST).  Oracle
+    #    (model-free): an array-stored measurement is a completed operation and leaves the set of used M registers
+    #    as it was; a register-stored one takes exactly one until the flush; after a flush none is used; the active
+    #    R registers never change; nothing raises.
+    arr_kinds = [(True, "new"), (True, "fut"), (False, "new"), (False, "fut")]
+    all_kinds = arr_kinds + [(True, "reg"), (False, "reg")]
+    plansJ = [(40, 20, [(True, "new")]), (40, 20, [(True, "fut")]), (40, 40, [(False, "new"), (False, "fut")]),
+              (60, 30, arr_kinds), (60, 25, all_kinds), (60, 7, all_kinds), (50, 50, arr_kinds)]
+    for n_ops, k, kinds in plansJ * (6 if ctx.thorough else 1):
+        res.evaluations += 1
+        res.count("measurement-history")
+        res.nontrivial.add(hash(("meas", n_ops, k, str(kinds), res.evaluations)))
+        f = _meas_history(H, rng, n_ops, k, kinds)
+        if f:
+            res.failures.append({"what": f["what"], "kf": None, "input": f})
     # -- stream E: an explicit loop register that is in use must be rejected (never silently shared)
     for r_in_use, outer in ((0, "loop"), (0, "reg"), (1, "nested")):
         inner = {"k": "lbody", "s": 0, "e": 3, "d": 1, "r": r_in_use,
@@ -517,6 +614,11 @@ def replay(ctx, payload):
             "scratch-live", "ctrl-reg", "ctrl-array", "trace", "raise", "flushes")]
         print("replay:", st, json.dumps(det)[:1500])
         return 1 if st == "fail" and det else 0
+    if "flush_every" in f and "history" in f:  # a measurement history (stream J): the same measurements again
+        import random
+        g = _meas_history(H, random.Random(0), 0, f["flush_every"], [], script=f["history"])
+        print("replay:", json.dumps(g)[:1500])
+        return 1 if g else 0
     if "history" in f and "minimal" not in f:  # the history itself: leak / raise at its last operation
         g = _leak_check(H, f["history"], None, "replay")
         print("replay:", json.dumps(g)[:1500])
